@@ -68,9 +68,17 @@ def graph_bound(ctx):
 def design_level(ctx):
     quick = ctx.quick
     small = dict(widths=[1, 2, 4], maxl=3, maxs=2, cpset=[65, 55296, 56320, 65536])
+    gb = graph_bound(ctx)
+    dumpf = os.path.join(ctx.tmp, "text_graph_faithful")
+    dumpx = os.path.join(ctx.tmp, "text_graph_fixed")
+    jobs = []
     if quick:
-        main = dict(widths=[1, 2, 4], maxl=3, maxs=2, cpset=[65, 233, 55296, 56320, 65536])
-        mains = [("MC_Text(faithful;W124,L<=3,S<=2,5cp)", main)]
+        # quick tier: the model-checked bound is the bound whose graph is replayed, so the two runs also dump it
+        mains = [("MC_Text(faithful;W124,L<=3,S<=2,4cp)", gb)]
+        jobs.append((mains[0][0], dict(module="Text", cfg_text=mc_cfg("faithful", invs=INV_ALWAYS, **gb), workers=4,
+                                       coverage=True, dump=dumpf, timeout=2400)))
+        jobs.append(("MC_Text(fixed)", dict(module="Text", workers=4, timeout=2400, dump=dumpx, cfg_text=mc_cfg(
+            "fixed", invs=INV_ALWAYS + ["TerminatorWritten"], **gb))))
     else:
         full = [65, 233, 65535, 55296, 56320, 65536, 1114111]
         mains = [("MC_Text(faithful;W%d,L<=4,S<=2,7cp)" % w, dict(widths=[w], maxl=4, maxs=2, cpset=full))
@@ -79,13 +87,16 @@ def design_level(ctx):
                   for w in (2, 4)]
         mains += [("MC_Text(faithful;W%d,L<=5,S<=2,5cp)" % w,
                    dict(widths=[w], maxl=5, maxs=2, cpset=[65, 55296, 56320, 65536, 65535])) for w in (2, 4)]
-    jobs = []
-    for name, b in mains:
-        jobs.append((name, dict(module="Text", cfg_text=mc_cfg("faithful", invs=INV_ALWAYS, **b),
-                                workers=4 if quick else 3, coverage=(name == mains[0][0]), timeout=2400)))
-    bigfix = mains[0][1] if quick else dict(widths=[1, 2, 4], maxl=4, maxs=2, cpset=[65, 233, 55296, 56320, 65536])
-    jobs.append(("MC_Text(fixed)", dict(module="Text", workers=3, timeout=2400, cfg_text=mc_cfg(
-        "fixed", invs=INV_ALWAYS + ["TerminatorWritten"], **bigfix))))
+        for name, b in mains:
+            jobs.append((name, dict(module="Text", cfg_text=mc_cfg("faithful", invs=INV_ALWAYS, **b),
+                                    workers=3, coverage=(name == mains[0][0]), timeout=2400)))
+        jobs.append(("MC_Text(fixed)", dict(module="Text", workers=3, timeout=2400, cfg_text=mc_cfg(
+            "fixed", invs=INV_ALWAYS + ["TerminatorWritten"], widths=[1, 2, 4], maxl=4, maxs=2,
+            cpset=[65, 233, 55296, 56320, 65536]))))
+        jobs.append(("dump(Text,faithful,L<=%d,S<=2)" % gb["maxl"], dict(
+            module="Text", workers=2, cfg_text=mc_cfg("faithful", invs=[], **gb), dump=dumpf)))
+        jobs.append(("dump(Text,fixed,L<=%d,S<=2)" % gb["maxl"], dict(
+            module="Text", workers=2, cfg_text=mc_cfg("fixed", invs=[], **gb), dump=dumpx)))
     jobs.append(("expect:terminator", dict(module="Text", workers=1, cfg_text=mc_cfg(
         "faithful", invs=["TerminatorWritten"], **small))))
     jobs.append(("expect:lonepair", dict(module="Text", workers=1, cfg_text=mc_cfg(
@@ -93,10 +104,6 @@ def design_level(ctx):
     for v in ("nocount16", "alwaysterm", "lastpair"):
         jobs.append(("sanity:" + v, dict(module="Text", workers=2, cfg_text=mc_cfg(
             v, invs=INV_ALWAYS, widths=[1, 2, 4], maxl=3, maxs=2, cpset=[65, 55296, 56320, 65536]))))
-    gb = graph_bound(ctx)
-    for v in ("faithful", "fixed"):
-        jobs.append(("dump(Text,%s,L<=%d,S<=2)" % (v, gb["maxl"]), dict(
-            module="Text", workers=2, cfg_text=mc_cfg(v, invs=[], **gb), dump=os.path.join(ctx.tmp, "text_graph_" + v))))
     res = tlc_many(jobs, par=4)
     for name, _ in jobs:
         r = res[name]
@@ -357,7 +364,7 @@ def strip(rec):
 
 
 def judge(ctx, recs, report=True):
-    verdicts, diverge, totals = batch_verdicts(ctx, "Trace_Text", [strip(r) for r in recs], chunk=5000)
+    verdicts, diverge, totals = batch_verdicts(ctx, "Trace_Text", [strip(r) for r in recs], chunk=5500)
     nbad = 0
     for i in sorted(verdicts):
         rec = recs[i]
@@ -383,7 +390,7 @@ def produce(cc, args):
     recs = []
     div = replay_graph(cc, lab, variant, recs)
     ngraph = len(recs)
-    driver(cc, lab, recs, 2500 if cc.quick else 60000)
+    driver(cc, lab, recs, 2500 if cc.quick else 40000)
     return {"recs": recs, "div": div, "variant": variant, "ngraph": ngraph}
 
 
